@@ -144,6 +144,9 @@ func independentValidate(p *Payload) error {
 }
 
 // bindVia runs the bind through one of the entry points; it returns the error and a panic value.
+// preParse: what a handler did with the request's form before binding (0 nothing, 1 c.Post(...), 2 Req.ParseForm()).
+var preParse int
+
 func bindVia(entry string, req *http.Request, got *Payload) (err error, pv any) {
 	defer func() {
 		if v := recover(); v != nil {
@@ -172,6 +175,14 @@ func bindVia(entry string, req *http.Request, got *Payload) (err error, pv any) 
 				for i := range vs {
 					vs[i] = "edited-by-the-handler"
 				}
+			}
+			// ... and it may have looked at the form fields before it binds (a CSRF check, a logger): for a JSON / XML
+			// body that leaves an empty, non-nil PostForm behind - the body is still the source
+			switch preParse {
+			case 1:
+				_ = c.Post("csrf_token")
+			case 2:
+				_ = c.Req.ParseForm()
 			}
 			switch entry {
 			case "Context.Bind":
@@ -262,6 +273,13 @@ func prop(t *rapid.T) {
 		req.Header.Set("Content-Type", ct)
 	}
 	entry := rapid.SampledFrom([]string{"binding.Auto", "binding.Bind", "Context.Bind", "Context.AutoBind"}).Draw(t, "entry")
+	preParse = 0
+	if bodyFormat == "json" || bodyFormat == "xml" || !(method == "POST" || method == "PUT" || method == "PATCH") {
+		// (for form and multipart bodies reading a field first consumes the body through net/http - the usual order is
+		// bind first; not generated)
+		preParse = rapid.SampledFrom([]int{0, 0, 1, 2}).Draw(t, "preParse")
+	}
+	defer func() { preParse = 0 }()
 	// binds are independent of each other: an earlier request whose body broke off in the middle (client gone,
 	// size limit) must leave nothing behind for this one
 	if rapid.IntRange(0, 3).Draw(t, "earlierBrokenBind") == 0 {
